@@ -20,6 +20,13 @@ Five streams of cases (illc and boys were added in round c, see `ill_contracted_
    repair, so it is a KNOWN FINDING (KNOWN_FINDINGS.json, key C04-etransfer-conditioning) recognised by `known`
    below from the INPUT quartet; any other disagreement is a violation.
 
+Stream "hp" (harness/hpnum.py): ElectronRepulsionIntegral.construct_array_contraction - orientation choice, the kernels
+_compute_two_elec_integrals / _compute_two_elec_integrals_angmom_zero (Boys seed, vertical, electron-transfer and
+horizontal recursions, norms computed inside, contraction), the transposition back - replayed in 260-bit arithmetic on
+object arrays with the Boys function from mpmath and compared with command 20 at 1e-18 x (largest sum|primitive terms|
+of the block).  At that precision the conditioning of the electron-transfer recursion is irrelevant, so a difference
+is a difference of FORMULA; quartets of total L <= 4 (quick) / 6 (thorough) with K <= 2: object arithmetic is slow.
+
 Memory: the exact model of an (ff|ff)-type quartet on two centres needs ~4 GB; such cases run 4 at a time, the
 rest 16 at a time.  The model is run through the extracted runner; `xcheck_cmds` re-evaluates a few small
 commands inside Coq (vm_compute)."""
@@ -52,7 +59,9 @@ RULE = ("block level: shell quartets with l in 0..3; quick = stratified seed-dep
         "factor 4 of exp_cap(l), 10 sampled variants each) and a whole-basis case (contracted s ascending first, "
         "spherical contracted d). Boys function: ElectronRepulsionIntegral.boys_func on orders 0..12 x 49 fixed arguments "
         "(0, 5e-324 .. 1e6, every decade of 1e-32..1e-24) + 21 seeded 53-bit arguments, mpmath at 1e-11 relative. Non-trivial: L>0 or K>1 or M>1 and a block that is not "
-        "identically zero; distinct by the hash of the exact input")
+        "identically zero; distinct by the hash of the exact input; hp stream: 6 (quick) / 48 (thorough) quartets of total "
+        "L<=4 / L<=6 incl. all-s, K<=2, M<=2, all five geometries, replayed at 260 bits (Boys by mpmath) against command 20, "
+        "tolerance 1e-18 x largest sum|primitive terms| of the block")
 ASSUMPTIONS = [
     "floating-point rounding of the NumPy pipeline and of scipy.special.hyp1f1 is not modelled: the 1e-6*Schwarz "
     "accuracy clause is decided on the generated inputs against the exact value (Boys function by mpmath, 260 bits)",
@@ -195,7 +204,60 @@ def fcompare(impl, nested, tol_fn):
             "abs_diff": float(abs(Fraction(xv) - mv)), "tol": t}
 
 
+_HPCLS = []
+
+
+def _eval_hp(model, case):
+    """high-precision replay of ERI.construct_array_contraction vs command 20 (harness/hpnum.py)"""
+    import hpnum
+    from gbasis.integrals.electron_repulsion import ElectronRepulsionIntegral as ERI
+    if not _HPCLS:
+        _HPCLS.append(type("ElectronRepulsionHP", (ERI,), {"boys_func": staticmethod(hpnum.boys_hp)}))
+    ss = [XShell.from_json(s) for s in case["s"]]
+    tag = "hp block %d%d%d%d" % (ss[0].l, ss[1].l, ss[2].l, ss[3].l)
+    res = model.call("(20 %s)" % " ".join(s.sx() for s in ss))
+    ok, out = hpnum.try_replay(lambda: (
+        _HPCLS[0].construct_array_contraction(*[hpnum.hp_shell(s) for s in ss]),
+        _HPCLS[0].construct_array_contraction(*[hpnum.prim_shell(s) for s in ss])))
+    if not ok:
+        return {"detail": out, "nontrivial": True, "tag": tag}
+    blk, prim = out
+    scale = hpnum.contract_scale(prim, ss, [0, 2, 4, 6])
+    d = hpnum.compare_hp(blk, res, scale, floor_rel=1.0)
+    nontriv = (sum(s.l for s in ss) > 0 or any(len(s.exps) > 1 or len(s.coeffs[0]) > 1 for s in ss)) \
+        and bool(scale.size and scale.max() > hpnum.NONTRIVIAL_SCALE)
+    return {"detail": d, "nontrivial": nontriv, "tag": tag, "stats": {"hp_elements": int(np.asarray(blk).size)}}
+
+
+def gen_hp_cases(tier, seed):
+    import os
+    if os.environ.get("VERIF_NO_HP"):        # timing comparisons only
+        return []
+    rng = random.Random(1000003 * seed + 4004)
+    quick = tier == "quick"
+    lcap = 4 if quick else 6
+    tuples = [t for t in itertools.product(range(3), repeat=4) if 0 < sum(t) <= lcap]
+    picks = [(0, 0, 0, 0)]
+    n = 6 if quick else 48
+    while len(picks) < n:
+        t = rng.choice(tuples)
+        if quick and sum(t) == 4 and sum(1 for p in picks if sum(p) == 4) >= 2:
+            continue
+        picks.append(t)
+    out = []
+    for i, t in enumerate(picks):
+        L = sum(t)
+        Ks = [rng.randint(1, 2) for _ in range(4)] if L <= 2 else [1 + (rng.random() < 0.35) for _ in range(4)]
+        Ms = [2 if rng.random() < 0.3 else 1 for _ in range(4)]
+        c = gen_block(rng, t, Ks, Ms, GEOMS[i % len(GEOMS)])
+        c["hp"] = 1
+        out.append(c)
+    return out
+
+
 def _eval_block(model, case):
+    if case.get("hp"):
+        return _eval_hp(model, case)
     from gbasis.integrals.electron_repulsion import ElectronRepulsionIntegral as ERI
 
     ss = [XShell.from_json(s) for s in case["s"]]
@@ -811,7 +873,7 @@ def gen_cases(tier, seed):
     cases += gen_basis_cases(random.Random(1000003 * seed + 44), tier)
     # the Boys function itself: orders 0..12 (four f shells), arguments 0, 5e-324 .. 1e6
     cases += lib.boys_cases(seed, 12, "eri")
-    return cases
+    return gen_hp_cases(tier, seed) + cases
 
 
 # ----------------------------------------------------------------------------------------------
